@@ -46,6 +46,7 @@ type AssertAt struct {
 	Src    string
 	Hits   int
 	Dead   bool // anchor (or a ghost snapshot it mentions) is gone: the lemma is dropped
+	Check  bool // "check at": proved where it stands but not used as an assumption by what follows
 }
 
 type Contract struct {
@@ -59,9 +60,9 @@ type Contract struct {
 	HasAssigns bool
 	Loops      map[int]*LoopSpec
 	NoAlloc    bool
-	Trusted    bool // contract is assumed, body not verified
+	Trusted    bool   // contract is assumed, body not verified
 	Recovers   string // non-empty: the function must recover from panics of its callees (checked structurally)
-	Extern     bool // dependency: assumed
+	Extern     bool   // dependency: assumed
 	Inline     bool
 	Ghosts     []GhostUpdate
 	Holds      []string // mutexes held on entry (and exit): "r.mu:W"
@@ -69,6 +70,7 @@ type Contract struct {
 	Src        string
 	Props      []string // properties this unit serves (informational)
 	Why        string   // for trusted/extern: justification text
+	ClosureOf  string   // fnfield: the field only ever holds nil or a closure of this function (pkg-relative name, e.g. NewRIBHolder$1)
 }
 
 func (c *Contract) Key() string { return c.Pkg + "." + c.Func }
@@ -103,18 +105,18 @@ type FnField struct {
 }
 
 type Specs struct {
-	Contracts map[string]*Contract // key pkgpath.Func
-	Preds     map[string]*Pred
-	GhostFns  map[string]*GhostFn
-	GhostVars map[string]string // name -> sort/type
-	Guards    []GuardDecl
+	Contracts  map[string]*Contract // key pkgpath.Func
+	Preds      map[string]*Pred
+	GhostFns   map[string]*GhostFn
+	GhostVars  map[string]string // name -> sort/type
+	Guards     []GuardDecl
 	PathGuards []PathGuard
-	FnFields  map[string]*Contract // key pkgpath.Struct.field
-	Inlines   map[string]bool      // key pkgpath.Func
-	Axioms    []Clause             // spec-level assumptions about ghost functions
-	Regions   map[string][]string  // region name -> state-key glob patterns
-	RegionOrd []string
-	Errors    []string
+	FnFields   map[string]*Contract // key pkgpath.Struct.field
+	Inlines    map[string]bool      // key pkgpath.Func
+	Axioms     []Clause             // spec-level assumptions about ghost functions
+	Regions    map[string][]string  // region name -> state-key glob patterns
+	RegionOrd  []string
+	Errors     []string
 }
 
 func NewSpecs() *Specs {
@@ -159,7 +161,7 @@ func (s *Specs) LoadContractFile(path, pkgPath string, isGo bool) {
 			first = t[:j]
 		}
 		switch first {
-		case "unit", "requires", "ensures", "assigns", "loop", "ghost", "at", "trusted", "recovers", "inline", "extern", "pred", "ghostfn", "package", "guarded_by", "guarded_path", "holds", "acquires", "props", "why", "fnfield", "ghostvar", "region", "assert", "axiom":
+		case "unit", "requires", "ensures", "assigns", "loop", "ghost", "at", "trusted", "recovers", "inline", "extern", "pred", "ghostfn", "package", "guarded_by", "guarded_path", "holds", "acquires", "props", "why", "fnfield", "ghostvar", "region", "assert", "check", "axiom", "closure":
 			logical = append(logical, ll{t, i + 1})
 		default:
 			if len(logical) == 0 {
@@ -227,6 +229,28 @@ func (s *Specs) LoadContractFile(path, pkgPath string, isGo bool) {
 			if cur != nil {
 				cur.Why = rest
 			}
+		case "closure":
+			if cur != nil {
+				cur.ClosureOf = strings.TrimSpace(rest)
+			}
+		case "ghost":
+			// ghost <var> = <expr>: (fnfield with a closure clause) update after the dispatched call returns
+			if cur == nil {
+				errf(l.n, "clause outside unit")
+				continue
+			}
+			eq := strings.Index(rest, "=")
+			if eq < 0 {
+				errf(l.n, "ghost update needs '='")
+				continue
+			}
+			et := strings.TrimSpace(rest[eq+1:])
+			e, err := ParseExpr(et)
+			if err != nil {
+				errf(l.n, "%v", err)
+				continue
+			}
+			cur.Ghosts = append(cur.Ghosts, GhostUpdate{Anchor: "", Var: strings.TrimSpace(rest[:eq]), Text: et, E: e, Src: src})
 		case "inline":
 			if rest != "" {
 				parts := strings.Fields(rest)
@@ -374,7 +398,7 @@ func (s *Specs) LoadContractFile(path, pkgPath string, isGo bool) {
 				continue
 			}
 			cur.Ghosts = append(cur.Ghosts, GhostUpdate{Anchor: anchor, Var: v, Text: et, E: e, Src: src})
-		case "assert":
+		case "assert", "check":
 			// assert at "<anchor>" [label] expr
 			if cur == nil {
 				errf(l.n, "clause outside unit")
@@ -404,7 +428,7 @@ func (s *Specs) LoadContractFile(path, pkgPath string, isGo bool) {
 				errf(l.n, "%v", err)
 				continue
 			}
-			cur.Asserts = append(cur.Asserts, AssertAt{Anchor: anchor, Label: lbl, Text: r2, E: e, Src: src})
+			cur.Asserts = append(cur.Asserts, AssertAt{Anchor: anchor, Label: lbl, Text: r2, E: e, Src: src, Check: kw == "check"})
 		case "holds":
 			if cur != nil {
 				cur.Holds = append(cur.Holds, strings.Fields(strings.ReplaceAll(rest, ",", " "))...)
